@@ -25,6 +25,7 @@ diff = os.path.join(src, "mut%s.diff" % letter)
 demo = os.path.join(src, "demo%s.rs" % letter)
 dtxt = open(demo).read()
 crate = "scpi-contrib" if ("scpi_contrib" in dtxt) else "scpi"
+feat = " --features arrayvec" if (crate == "scpi" and ("arrayvec" in dtxt.lower() or "ArrayErrorQueue" in dtxt)) else ""
 log = {"id": sid, "property": prop, "needs": needs, "demo_crate": crate, "base_commit": sh("git -C /repo rev-parse HEAD", cwd="/")[1].strip()}
 rc, o = sh("git apply --check %s && git apply %s" % (diff, diff))
 assert rc == 0, "patch does not apply: " + o
@@ -35,17 +36,18 @@ log["suite_with_patch"] = {"results": res, "passed": sum(int(r[1]) for r in res)
 suite_ok = res and all(r[0] == "ok" for r in res) and "error" not in o
 tdir = os.path.join(WT, crate, "tests")
 shutil.copy(demo, os.path.join(tdir, "demo_seed.rs"))
-rc1, o1 = sh("cargo test -p %s --test demo_seed --offline 2>&1 | tail -40" % crate)
+sel = "--workspace" if crate == "scpi-contrib" else "-p %s%s" % (crate, feat)
+rc1, o1 = sh("cargo test %s --test demo_seed --offline 2>&1 | tail -40" % sel)
 log["demo_with_patch"] = {"rc": rc1, "tail": o1[-1500:]}
 m1 = re.search(r"test result: (\w+)\. (\d+) passed; (\d+) failed", o1)
 sh("git checkout -- .")
-rc2, o2 = sh("cargo test -p %s --test demo_seed --offline 2>&1 | tail -15" % crate)
+rc2, o2 = sh("cargo test %s --test demo_seed --offline 2>&1 | tail -15" % sel)
 m2 = re.search(r"test result: (\w+)\. (\d+) passed; (\d+) failed", o2)
 log["demo_without_patch"] = {"rc": rc2, "tail": o2[-600:]}
 os.remove(os.path.join(tdir, "demo_seed.rs"))
 confirmed = bool(suite_ok and m1 and m1.group(1) == "FAILED" and m2 and m2.group(1) == "ok")
 log["confirmed"] = confirmed
-log["ran"] = ["git apply mut.diff", "cargo test --workspace --no-fail-fast --offline (must pass)", "cargo test -p %s --test demo_seed --offline (must fail with patch, pass without)" % crate]
+log["ran"] = ["git apply mut.diff", "cargo test --workspace --no-fail-fast --offline (must pass)", "cargo test -p %s%s --test demo_seed --offline (must fail with patch, pass without)" % (crate, feat)]
 if confirmed:
     os.makedirs(out, exist_ok=True)
     shutil.copy(diff, os.path.join(out, "patch.diff"))
